@@ -107,8 +107,18 @@ func render(n *Node) string {
 	case "defer-anon":
 		return "defer func() {\n" + renderList(n.Body) + "\n}()"
 	case "defer-named":
-		return "func d" + id + "(a) {\npv(" + id + ", a)\n" + renderList(n.Body) + "\n}\ny" + id + " = " + strconv.Itoa(n.Val) +
-			"\ndefer d" + id + "(y" + id + ")\ny" + id + " = " + strconv.Itoa(n.Val+1)
+		params, call, pre := "a", "d"+id+"(y"+id+")", ""
+		switch n.N % 4 {
+		case 1:
+			params, call = "a, b, c, d, e", "d"+id+"(y"+id+", 2, 3, 4, 5)"
+		case 2:
+			params, call = "a, r...", "d"+id+"(y"+id+", 1, 2)"
+		case 3:
+			params, call = "r...", "d"+id+"([y"+id+", 7]...)"
+			pre = "a = r[0]\n"
+		}
+		return "func d" + id + "(" + params + ") {\n" + pre + "pv(" + id + ", a)\n" + renderList(n.Body) + "\n}\ny" + id + " = " + strconv.Itoa(n.Val) +
+			"\ndefer " + call + "\ny" + id + " = " + strconv.Itoa(n.Val+1)
 	case "loop":
 		return "for i" + id + " = 0; i" + id + " < " + strconv.Itoa(n.N) + "; i" + id + "++ {\n" + renderList(n.Body) + "\n}"
 	case "forin":
@@ -149,6 +159,38 @@ func render(n *Node) string {
 		return "break"
 	case "continue":
 		return "continue"
+	case "multi":
+		var defs, es, names []string
+		for i, it := range n.Body {
+			iid := strconv.Itoa(it.ID)
+			if it.K == "fcall" {
+				defs = append(defs, "func f"+iid+"() {\n"+renderList(it.Body)+"\n}")
+				es = append(es, "f"+iid+"()")
+			} else {
+				es = append(es, "p("+iid+")")
+			}
+			names = append(names, "m"+id+"_"+strconv.Itoa(i))
+		}
+		pre := ""
+		if len(defs) > 0 {
+			pre = strings.Join(defs, "\n") + "\n"
+		}
+		switch n.N % 5 {
+		case 0:
+			return pre + strings.Join(names, ", ") + " = " + strings.Join(es, ", ")
+		case 1:
+			return pre + "var " + strings.Join(names, ", ") + " = " + strings.Join(es, ", ")
+		case 2:
+			return pre + "m" + id + " = [" + strings.Join(es, ", ") + "]"
+		case 3:
+			var kv []string
+			for i, e := range es {
+				kv = append(kv, "\"k"+strconv.Itoa(i)+"\": "+e)
+			}
+			return pre + "m" + id + " = {" + strings.Join(kv, ", ") + "}"
+		default:
+			return pre + "p2(" + id + ", " + strings.Join(es, ", ") + ")"
+		}
 	}
 	return "p(0)"
 }
@@ -172,6 +214,13 @@ type sig struct {
 	val  interface{} // return value; unspecified = anyVal
 }
 
+// policy selects one reading at each point the property leaves open.
+type policy struct {
+	finAfterFail bool // finally runs although catch failed / returned
+	ctrlToCatch  bool // return/break/continue inside a try body are delivered to catch (what the suite pins) instead of passing through
+	finOnCtrl    bool // when they pass through, finally runs on the way out
+}
+
 type anyValT struct{}
 
 var anyVal = anyValT{}
@@ -184,8 +233,9 @@ type model struct {
 	calls        int
 	faults       map[int]string
 	trace        []string
-	finAfterFail bool // policy for the unspecified point
-	ambiguous    bool // the run passed through the unspecified point
+	pol          policy
+	ambiguous    bool // the run passed through the unspecified point "finally after a failing catch"
+	ambiguousCF  bool // the run passed through the unspecified point "control flow leaving a try body"
 	loopIdx      map[int]int
 	catchMsg     map[int]string
 	fired        map[string]int
@@ -294,14 +344,43 @@ func (m *model) exec(n *Node, fr *frame) sig {
 			if sc.kind != 0 {
 				if n.HasFin {
 					m.ambiguous = true
-					if m.finAfterFail {
+					if m.pol.finAfterFail {
 						m.list(n.Finally, fr) // its own outcome is not specified either; keep catch's
 					}
 				}
 				return sc
 			}
 		} else if s.kind != 0 {
-			// generator invariant: no control-flow signal crosses a try body
+			// return / break / continue leaving a try body: the property is silent
+			m.ambiguousCF = true
+			if m.pol.ctrlToCatch {
+				m.catchMsg[n.ID] = anyMsg
+				var sc sig
+				if n.Var {
+					sc = m.host("v:" + id + ":*")
+				}
+				if sc.kind == 0 {
+					sc = m.list(n.Catch, fr)
+				}
+				if sc.kind != 0 {
+					if n.HasFin {
+						m.ambiguous = true
+						if m.pol.finAfterFail {
+							m.list(n.Finally, fr)
+						}
+					}
+					return sc
+				}
+				if n.HasFin {
+					return m.list(n.Finally, fr)
+				}
+				return sig{}
+			}
+			if n.HasFin && m.pol.finOnCtrl {
+				if sf := m.list(n.Finally, fr); sf.kind != 0 {
+					return sf
+				}
+			}
 			return s
 		}
 		if n.HasFin {
@@ -368,6 +447,21 @@ func (m *model) exec(n *Node, fr *frame) sig {
 		return sig{kind: 3}
 	case "continue":
 		return sig{kind: 4}
+	case "multi":
+		// the expressions of a list are evaluated left to right; the first failure aborts the statement
+		for _, it := range n.Body {
+			if it.K == "fcall" {
+				if r := m.call(func(f *frame) sig { return m.list(it.Body, f) }); r.kind == 1 {
+					return r
+				}
+			} else if s := m.host("p:" + strconv.Itoa(it.ID)); s.kind != 0 {
+				return s
+			}
+		}
+		if n.N%5 == 4 {
+			return m.host("p:" + id)
+		}
+		return sig{}
 	}
 	return sig{}
 }
@@ -377,12 +471,13 @@ type outcome struct {
 	err       string // "" = nil error; anyMsg = some error
 	val       interface{}
 	ambiguous bool
+	ambigCF   bool
 	calls     int
 	fired     map[string]int
 }
 
-func runModel(w *Work, faults map[int]string, finAfterFail bool) outcome {
-	m := &model{faults: faults, finAfterFail: finAfterFail, loopIdx: map[int]int{}, catchMsg: map[int]string{}, fired: map[string]int{}}
+func runModel(w *Work, faults map[int]string, pol policy) outcome {
+	m := &model{faults: faults, pol: pol, loopIdx: map[int]int{}, catchMsg: map[int]string{}, fired: map[string]int{}}
 	r := m.call(func(f *frame) sig {
 		s := m.list(w.Prog, f)
 		if s.kind == 0 && w.Tail != 0 {
@@ -390,7 +485,7 @@ func runModel(w *Work, faults map[int]string, finAfterFail bool) outcome {
 		}
 		return s
 	})
-	o := outcome{trace: m.trace, ambiguous: m.ambiguous, calls: m.calls, fired: m.fired, val: r.val}
+	o := outcome{trace: m.trace, ambiguous: m.ambiguous, ambigCF: m.ambiguousCF, calls: m.calls, fired: m.fired, val: r.val}
 	if r.kind == 1 {
 		o.err = r.msg
 	}
@@ -430,6 +525,7 @@ type gctx struct {
 	loops     []int // enclosing loops of the current invocation that break/continue may target
 	noBrk     bool  // a try body lies between here and the nearest loop
 	catchVars []int // try ids whose catch variable is in scope
+	quirk     bool  // inside a try body from which control flow may leave
 }
 
 func (g *gen) id() int { g.nextID++; return g.nextID }
@@ -466,6 +562,11 @@ func (g *gen) stmt(c gctx) *Node {
 			n := &Node{K: "try", ID: id, Var: g.r.Intn(2) == 0, HasFin: g.r.Intn(2) == 0}
 			bc := inner
 			bc.noRet, bc.noBrk = true, true
+			if g.r.Intn(6) == 0 {
+				// rarely: let return / break / continue leave the try body (two readings accepted)
+				bc.noRet, bc.noBrk = c.noRet, c.noBrk
+				bc.quirk = true
+			}
 			n.Body = g.stmts(bc, 4)
 			cc := inner
 			if n.Var {
@@ -489,7 +590,7 @@ func (g *gen) stmt(c gctx) *Node {
 			return &Node{K: "defer-anon", ID: id, Body: g.stmts(fc, 3)}
 		case k == 11 && !leaf:
 			fc := gctx{depth: c.depth + 1, inFunc: true}
-			return &Node{K: "defer-named", ID: id, Val: 100 + g.r.Intn(800), Body: g.stmts(fc, 2)}
+			return &Node{K: "defer-named", ID: id, N: g.r.Intn(4), Val: 100 + g.r.Intn(800), Body: g.stmts(fc, 2)}
 		case k == 12 && !leaf:
 			kind := "loop"
 			if g.r.Intn(3) == 0 {
@@ -519,6 +620,18 @@ func (g *gen) stmt(c gctx) *Node {
 			return &Node{K: []string{"break", "continue"}[g.r.Intn(2)], ID: id}
 		case k == 18 && len(c.catchVars) > 0:
 			return &Node{K: "rethrow", ID: id, N: c.catchVars[len(c.catchVars)-1]}
+		case k == 19 && !leaf:
+			n := &Node{K: "multi", ID: id, N: g.r.Intn(5)}
+			cnt := 2 + g.r.Intn(2)
+			for i := 0; i < cnt; i++ {
+				if g.r.Intn(2) == 0 {
+					fc := gctx{depth: c.depth + 1, inFunc: true}
+					n.Body = append(n.Body, &Node{K: "fcall", ID: g.id(), Body: g.stmts(fc, 3)})
+				} else {
+					n.Body = append(n.Body, &Node{K: "probe", ID: g.id()})
+				}
+			}
+			return n
 		case k == 19:
 			return &Node{K: "probe", ID: id}
 		}
@@ -540,7 +653,7 @@ func (Prop) Gen(seed int64, tier string) *harness.Case {
 	if r.Intn(2) == 0 {
 		w.Tail = 1 + r.Intn(98)
 	}
-	base := runModel(&w, nil, false)
+	base := runModel(&w, nil, policy{ctrlToCatch: true})
 	var evs []harness.EventSpec
 	if base.calls > 0 {
 		nf := r.Intn(3)
@@ -599,6 +712,7 @@ func (Prop) Run(t *testing.T, c *harness.Case, verbose bool) *harness.Result {
 	}
 	e := env.NewEnv()
 	e.Define("p", func(id int64) interface{} { return host("p:" + strconv.FormatInt(id, 10)) })
+	e.Define("p2", func(id int64, rest ...interface{}) interface{} { return host("p:" + strconv.FormatInt(id, 10)) })
 	e.Define("pv", func(id int64, v interface{}) interface{} {
 		return host("v:" + strconv.FormatInt(id, 10) + ":" + fmt.Sprint(v))
 	})
@@ -618,11 +732,8 @@ func (Prop) Run(t *testing.T, c *harness.Case, verbose bool) *harness.Result {
 		got = rerr.Error()
 	}
 
-	a := runModel(&w, faults, false)
-	b := a
-	if a.ambiguous {
-		b = runModel(&w, faults, true)
-	}
+	// the reading the unedited suite pins comes first; the others are tried only if it does not match
+	a := runModel(&w, faults, policy{ctrlToCatch: true})
 	res.Steps = calls
 	res.Tasks = 1
 	res.LogHash = harness.HashStrings(strings.Join(trace, ","), got)
@@ -633,6 +744,9 @@ func (Prop) Run(t *testing.T, c *harness.Case, verbose bool) *harness.Result {
 	res.Counters["host_calls"] = calls
 	if a.ambiguous {
 		res.Counters["passed_unspecified_point"]++
+	}
+	if a.ambigCF {
+		res.Counters["control_flow_left_a_try_body"]++
 	}
 	if a.err != "" {
 		res.Counters["uncaught_error_expected"]++
@@ -675,8 +789,18 @@ func (Prop) Run(t *testing.T, c *harness.Case, verbose bool) *harness.Result {
 	if okA {
 		return res
 	}
-	if a.ambiguous {
-		if okB, _ := ok(b); okB {
+	for _, pol := range []policy{
+		{true, true, false}, {false, false, false}, {false, false, true}, {true, false, false}, {true, false, true},
+	} {
+		if !pol.ctrlToCatch && !a.ambigCF {
+			continue
+		}
+		o := runModel(&w, faults, pol)
+		if !o.ambiguous && !o.ambigCF && !a.ambiguous && !a.ambigCF {
+			break
+		}
+		if okB, _ := ok(o); okB {
+			res.Counters["accepted_alternative_reading"]++
 			return res
 		}
 	}
@@ -698,13 +822,24 @@ func valid(w *Work) bool {
 		for _, n := range ns {
 			fc := gctx{inFunc: true}
 			switch n.K {
-			case "func", "callrec", "funcvar", "anoncall", "defer-anon", "defer-named":
+			case "func", "callrec", "funcvar", "anoncall", "defer-anon", "defer-named", "fcall":
 				if !chk(n.Body, fc) {
 					return false
 				}
+			case "multi":
+				if len(n.Body) < 2 {
+					return false
+				}
+				for _, it := range n.Body {
+					if it.K != "probe" && it.K != "fcall" {
+						return false
+					}
+				}
+				if !chk(n.Body, c) {
+					return false
+				}
 			case "try":
-				bc := c
-				bc.noRet, bc.noBrk = true, true
+				bc := c // control flow may leave a try body: the oracle accepts both readings
 				cc := c
 				if n.Var {
 					cc.catchVars = append(append([]int{}, c.catchVars...), n.ID)
